@@ -1034,6 +1034,9 @@ func (vc *VC) mapUpdate(ins *ssa.MapUpdate) {
 	m := ins.Map.Type().Underlying().(*types.Map)
 	vc.guardedUse(ins.Map, ins.Pos(), "map-write")
 	x, k, v := vc.val(ins.Map), vc.val(ins.Key), vc.val(ins.Value)
+	// pseudo-site "mapstore": contracts may say when a map entry may be written ("site mapstore#1 requires ...")
+	vc.siteClauses("mapstore", vc.ordinalOf(ins, "mapstore"), "site-requires", map[string]sval{
+		"arg0": {term: x, typ: ins.Map.Type()}, "arg1": {term: k, typ: ins.Key.Type()}, "arg2": {term: v, typ: ins.Value.Type()}}, ins.Pos())
 	vc.obligeSafety("nil-map-store", fmt.Sprintf("(not (= %s 0))", x), ins.Pos())
 	vc.frameCheckMap(ins)
 	d, vk := vc.mapKeys(m)
